@@ -136,6 +136,12 @@ struct LineInfo {
     value_is_one: bool,
 }
 
+/// "then a space and the unit when the unit has a numerator part": required with a numerator
+/// part; without one the statement does not say, and the blank goes with the printed form.
+fn blank_expected(has_numerator: bool, unit_text: &str) -> bool {
+    has_numerator || !(unit_text.is_empty() || unit_text.starts_with('/'))
+}
+
 fn expected(db: &anything::Db, q: &str, exact: bool) -> Option<(Vec<Item>, Vec<Option<LineInfo>>)> {
     let parsed = anything::parse(q).ok()?;
     let mut d = Vec::new();
@@ -161,10 +167,13 @@ fn expected(db: &anything::Db, q: &str, exact: bool) -> Option<(Vec<Item>, Vec<O
                 let number = s.clone();
                 // a space and the unit when the unit has a numerator part
                 let parts = crate::obs::unit_parts(&n.unit);
-                if parts.iter().any(|p| p.1 > 0) {
+                // (for a unit without one the statement is silent; the blank is then judged on the
+                // printed form: none in front of a leading `/`, one in front of a name as in `s⁻¹`)
+                let unit_text = n.unit.display(!n.value.is_one()).to_string();
+                if blank_expected(parts.iter().any(|p| p.1 > 0), &unit_text) {
                     s.push(' ');
                 }
-                s.push_str(&n.unit.display(!n.value.is_one()).to_string());
+                s.push_str(&unit_text);
                 out.push(Item::Line(s));
                 infos.push(Some(LineInfo { number, value: crate::obs::rat_of(&n.value), value_is_one: crate::obs::rat_of(&n.value) == num::BigRational::one(), parts }));
             }
@@ -381,6 +390,7 @@ impl Prop for C19 {
         vec![
             "the decimal rendering itself (Rational::display, limit 12/exponent 12) is C08's subject; here it is taken from the library".into(),
             "the statement fixes no exit code; only exit by signal or the panic code 101 count as violations".into(),
+            "\"a space and the unit when the unit has a numerator part\": with a numerator part the blank is required; for a unit without one the statement is silent, and the blank is judged on the printed form (none before a leading `/` as in `0.25/s`, one before a name as in `0.25 s⁻¹`)".into(),
             "\"the unit name pluralised\" is read as the counted (numerator) name: a plural form after the `/` (`3 m/decades`) is reported".into(),
         ]
     }
@@ -465,8 +475,8 @@ impl Prop for C19 {
                                     let had_space = rest.starts_with(' ');
                                     let unit_text = rest.strip_prefix(' ').unwrap_or(rest);
                                     let has_num = info.parts.iter().any(|p| p.1 > 0);
-                                    if had_space != has_num {
-                                        return fw::fail(sig("unit-space"), format!("{}: line {line:?}: a blank separates value and unit iff the unit has a numerator part", case.key));
+                                    if had_space != blank_expected(has_num, unit_text) {
+                                        return fw::fail(sig("unit-space"), format!("{}: line {line:?}: a blank separates value and unit when the unit has a numerator part, none stands in front of a leading `/`", case.key));
                                     }
                                     match printed_unit_ok(unit_text, info) {
                                         Ok(true) => units_judged += 1,
